@@ -74,6 +74,11 @@ def qruntime_part(ctx, binary, quick):
     behs += vlib.gen_behaviours(ctx, "GenBackoff", "GenBackoff.cfg", num=n2, depth=60, name="gen-backoff-two",
                                 env={"GEN_DEPTH": 8 if quick else 14, "GEN_TWO": 1})[:n2]
     ctx.cov["two_failing_items_behaviours"] = n2
+    # reconciles that take time before they return: intervals count from the return
+    n3 = 30 if quick else 800
+    behs += vlib.gen_behaviours(ctx, "GenBackoff", "GenBackoff.cfg", num=n3, depth=60, name="gen-backoff-busy",
+                                env={"GEN_DEPTH": 8 if quick else 14, "GEN_BUSY": 1})[:n3]
+    ctx.cov["busy_reconcile_behaviours"] = n3
     ctx.cov["behaviours_replayed"] += len(behs)
     ctx.sample({"outcome_sequence": behs[0]["outcomes"]})
     inp = os.path.join(ctx.scratch, "bbehs.json")
